@@ -51,7 +51,7 @@ fn configs(tier: Tier, seed: u64) -> Vec<Cfg> {
                         continue;
                     }
                     let steps = if fail.is_empty() { 3 } else { 2 };
-                    v.push(Cfg { size, parallel, pool, deque: g.chance(1, 4), delay_mode, fail, steps });
+                    v.push(Cfg { size, parallel, pool, kind: match g.below(8) { 0 | 1 => 1, 2 => 2, _ => 0 }, delay_mode, fail, steps });
                 }
             }
         }
@@ -59,10 +59,14 @@ fn configs(tier: Tier, seed: u64) -> Vec<Cfg> {
     v
 }
 
+fn pop_kind_name(kind: u8) -> &'static str {
+    ["Vec", "VecDeque", "BTreeSet (equal children collapse)"][kind as usize]
+}
+
 fn cfg_json(c: &Cfg) -> Value {
     let delay = ["none", "yield_now", "spin", "sleep 0-200us"][c.delay_mode as usize];
     json!({"population_size": c.size, "stepping": if c.parallel { format!("par_next on a rayon pool of {}", c.pool) } else { "serial_next".to_string() },
-           "population_type": if c.deque { "VecDeque" } else { "Vec" }, "injected_delay": delay,
+           "population_type": pop_kind_name(c.kind), "injected_delay": delay,
            "fail_at_calls": c.fail, "generations": c.steps})
 }
 
@@ -93,9 +97,9 @@ pub fn sanitizer_child() -> i32 {
         }
         for fail in fails {
             for delay_mode in if big { vec![0u8, 1, 2, 3] } else if tiny { vec![1u8] } else { vec![0u8, 1] } {
-                cfgs.push(Cfg { size, parallel: false, pool: 1, deque: false, delay_mode, fail: fail.clone(), steps: 2 });
+                cfgs.push(Cfg { size, parallel: false, pool: 1, kind: 0, delay_mode, fail: fail.clone(), steps: 2 });
                 for &pool in pools {
-                    cfgs.push(Cfg { size, parallel: true, pool, deque: size % 2 == 1, delay_mode, fail: fail.clone(), steps: 2 });
+                    cfgs.push(Cfg { size, parallel: true, pool, kind: (size % 3) as u8, delay_mode, fail: fail.clone(), steps: 2 });
                 }
             }
         }
